@@ -66,6 +66,11 @@ class World:
         """Late events are only enabled when every other event is a stutter (urgent timing)."""
         return False
 
+    def is_free(self, ev) -> bool:
+        """Free events are always explored and do not block late events (e.g. releasing a delayed
+        PDU: time may pass while it is held back)."""
+        return False
+
     def quiet(self, obs) -> bool:
         """True if the observations show no externally visible activity (used for stutter)."""
         return not obs
@@ -125,13 +130,14 @@ def expand(world: World, blob: bytes, pre_key: bytes):
     (event, obs_digest, violations, key, blob|None, stutter)."""
     st = world.restore(blob)
     evs = world.enabled(st)
-    normal = [e for e in evs if not world.is_late(e)]
-    late = [e for e in evs if world.is_late(e)]
+    free = [e for e in evs if world.is_free(e)]
+    normal = [e for e in evs if not world.is_late(e) and not world.is_free(e)]
+    late = [e for e in evs if world.is_late(e) and not world.is_free(e)]
     succs = []
     all_stutter = True
-    for group in (normal, late):
+    for group in (normal, late, free):
         if group is late and not all_stutter:
-            break
+            continue
         for ev in group:
             st = world.restore(blob)
             obs = world.apply(st, ev)
